@@ -490,56 +490,60 @@ theorem findRoot_guard_iff (fl fr : Option Rat) : findRootGuard fl fr = stop ↔
     | none => simp
     | some b =>
       simp only [Option.some.injEq, exists_and_left, exists_eq_left']
-      by_cases hab : a * b ≥ 0
-      · rw [if_pos hab]
-        by_cases ha : a = 0
-        · simp [ha, stop, pass]
-        · rw [if_neg ha]
-          by_cases hb : b = 0
-          · simp [hb, stop, pass]
-          · rw [if_neg hb]
+      by_cases ha : a = 0
+      · simp [ha, stop, pass]
+      · by_cases hb : b = 0
+        · simp [ha, hb, stop, pass]
+        · by_cases hs : Interp.sign1 a = Interp.sign1 b
+          · rw [if_pos (Or.inr (Or.inr hs)), if_neg ha, if_neg hb]
             simp only [true_iff]
+            unfold Interp.sign1 at hs
             rintro (h | h | ⟨h1, h2⟩ | ⟨h1, h2⟩)
             · exact ha h
             · exact hb h
-            · nlinarith [mul_neg_of_neg_of_pos h1 h2]
-            · nlinarith [mul_neg_of_pos_of_neg h1 h2]
-      · rw [if_neg hab]
-        push Not at hab
-        constructor
-        · intro hh; simp [stop, pass] at hh
-        · intro hn
-          exfalso; apply hn
-          right; right
-          rcases lt_trichotomy a 0 with ha | ha | ha
-          · left; refine ⟨ha, ?_⟩; by_contra hb; push Not at hb; nlinarith [mul_nonneg_of_nonpos_of_nonpos ha.le hb]
-          · rw [ha] at hab; simp at hab
-          · right; refine ⟨ha, ?_⟩; by_contra hb; push Not at hb; nlinarith [mul_nonneg ha.le hb]
+            · rw [if_neg (by linarith), if_neg ha, if_pos h2] at hs; omega
+            · rw [if_pos h1, if_neg (by linarith), if_neg hb] at hs; omega
+          · rw [if_neg (by rintro (h | h | h); exacts [ha h, hb h, hs h])]
+            constructor
+            · intro hh; simp [stop, pass] at hh
+            · intro hn
+              exfalso; apply hn
+              right; right
+              unfold Interp.sign1 at hs
+              rcases lt_trichotomy a 0 with ha' | ha' | ha'
+              · left; refine ⟨ha', ?_⟩
+                by_contra hb'; push Not at hb'
+                have hb'' : b < 0 := lt_of_le_of_ne hb' hb
+                apply hs
+                rw [if_neg (by linarith), if_neg ha, if_neg (by linarith), if_neg hb]
+              · exact absurd ha' ha
+              · right; refine ⟨ha', ?_⟩
+                by_contra hb'; push Not at hb'
+                have hb'' : 0 < b := lt_of_le_of_ne hb' (Ne.symm hb)
+                apply hs
+                rw [if_pos ha', if_pos hb'']
+
+/-- the bracket test does not look at the product of the end values: ends of opposite sign whose
+    product underflows in double (2^-600, -2^-600) are a meaningful request (fix 8302e13) -/
+example : findRootMeaningful (some ((1 : Rat) / 2 ^ 600)) (some (-((1 : Rat) / 2 ^ 600))) := by
+  have h : (0 : Rat) < 1 / 2 ^ 600 := one_div_pos.mpr (pow_pos (by norm_num) 600)
+  exact ⟨_, _, rfl, rfl, Or.inr (Or.inr (Or.inr ⟨h, neg_lt_zero.mpr h⟩))⟩
 
 example : findRootMeaningful (some (-1)) (some 2) := ⟨-1, 2, rfl, rfl, Or.inr (Or.inr (Or.inl ⟨by norm_num, by norm_num⟩))⟩
 example : findRootGuard none (some 1) = stop := rfl
 
 /-! ## 5. Integration -/
 
-/-- for a non-degenerate interval the 1-D dispatcher stops exactly on the unknown method names -/
-theorem integrate1_guard_iff (a b : Rat) (hab : a ≠ b) (method : String) :
+/-- the 1-D dispatcher stops exactly on the unknown method names — also on a degenerate interval
+    `a = b` (fix d39b5c1) -/
+theorem integrate1_guard_iff (a b : Rat) (method : String) :
     integrate1Guard a b method = stop ↔ ¬ integrate1Meaningful method := by
   unfold integrate1Guard integrate1Meaningful methods1D
-  rw [if_neg hab]
   simp only [List.mem_cons, List.not_mem_nil, or_false]
   split_ifs <;> simp_all [stop, pass]
 
-/-- FULL statement (FALSE for the code as it is: see `integrate1_degenerate_finding`) -/
-def integrate1_guard_iff_FULL : Prop :=
-  ∀ (a b : Rat) (method : String), integrate1Guard a b method = stop ↔ ¬ integrate1Meaningful method
-
-/-- FINDING (recorded, not a theorem about meaningful requests): on a degenerate interval the
-    unknown method is not diagnosed — `Integrate(f, a, a, "no-such-method")` returns 0 -/
-theorem integrate1_degenerate_finding : integrate1Guard 1 1 "no-such-method" = pass ∧
-    ¬ integrate1Meaningful "no-such-method" := by
-  constructor
-  · rfl
-  · decide
+example : integrate1Guard 1 1 "no-such-method" = stop := by decide
+example : integrate1Guard 1 1 "Tanh-Sinh" = pass := by decide
 
 theorem integrateND_guard_iff (method : String) :
     integrateNDGuard method = stop ↔ ¬ integrateNDMeaningful method := by
@@ -602,17 +606,12 @@ theorem invGammaP_guard_iff (a : Rat) : invGammaPGuard a = stop ↔ ¬ invGammaP
   unfold invGammaPGuard invGammaPMeaningful stop pass
   split <;> simp_all
 
-/-- for a non-zero argument `Round` stops exactly when more than seven digits are requested -/
-theorem round_guard_iff (N : Rat) (hN : N ≠ 0) (digits : Nat) : roundGuard N digits = stop ↔ ¬ roundMeaningful digits := by
+/-- `Round` stops exactly when more than seven digits are requested — also for `N = 0` (fix 710b478) -/
+theorem round_guard_iff (N : Rat) (digits : Nat) : roundGuard N digits = stop ↔ ¬ roundMeaningful digits := by
   unfold roundGuard roundMeaningful stop pass
-  rw [if_neg hN]
-  split <;> simp_all
+  split_ifs <;> simp_all
 
-/-- FULL statement (FALSE for the code as it is: see `round_zero_finding`) -/
-def round_guard_iff_FULL : Prop := ∀ (N : Rat) (digits : Nat), roundGuard N digits = stop ↔ ¬ roundMeaningful digits
-
-/-- FINDING: `Round(0, 8)` returns 0 — the zero shortcut precedes the digits test -/
-theorem round_zero_finding : roundGuard 0 8 = pass ∧ ¬ roundMeaningful 8 := by decide
+example : roundGuard 0 8 = stop ∧ roundGuard 0 7 = pass := by decide
 
 theorem vsh_guard_iff (component : Int) : vshGuard component = stop ↔ ¬ vshMeaningful component := by
   unfold vshGuard vshMeaningful stop pass
